@@ -38,28 +38,28 @@ theorem known_size_chunk_values (s : KSrc) (b j : Nat) :
 /-- Wrapper over an arbitrary iterator: every chunk ever returned, by any thread under any schedule, is a
 non-empty run of consecutive positions starting at its begin index, holding exactly the wrapped iterator's
 elements at those positions. -/
-theorem iter_chunk_contract (s : IW.Script) (hf : IW.Fused s) (ps : Nat → List IW.Req)
+theorem iter_chunk_contract (s : IW.Script) (ps : Nat → List IW.Req)
     (hok : ∀ t, ∀ r ∈ ps t, IW.ReqOk r) (σ : List Nat) (hW : (IW.run s σ (IW.init ps)).R < W)
     (t b : Nat) (vals : List Nat) (ho : IW.POut.chunk b vals ∈ ((IW.run s σ (IW.init ps)).th t).outs) :
     vals ≠ [] ∧ ∀ k (h : k < vals.length), s (b + k) = .some (vals[k]) := by
   have hi := IW.inv_init s ps hok
-  have := (IW.oinv_run hf σ hi (IW.oinv_init s ps) hW).good t _ ho
+  have := (IW.oinv_run σ hi (IW.oinv_init s ps) hW).good t _ ho
   simpa [IW.GoodOut] using this
 
 /-- the accumulator of a pull never exceeds its chunk size (so a chunk has at most `n` elements) -/
-theorem iter_chunk_bounded (s : IW.Script) (hf : IW.Fused s) (ps : Nat → List IW.Req)
+theorem iter_chunk_bounded (s : IW.Script) (ps : Nat → List IW.Req)
     (hok : ∀ t, ∀ r ∈ ps t, IW.ReqOk r) (σ : List Nat) (hW : (IW.run s σ (IW.init ps)).R < W)
     (t b n : Nat) (h : ((IW.run s σ (IW.init ps)).th t).pc.ticket = some (b, n)) :
     ((IW.run s σ (IW.init ps)).th t).pc.acc.length ≤ n :=
-  ((IW.inv_reach s hf ps hok σ hW).accOk t b n h).2
+  ((IW.inv_reach s ps hok σ hW).accOk t b n h).2
 
 /-- a chunk shorter than its size is published only after the wrapped iterator returned `None` -/
-theorem iter_short_chunk_at_end (s : IW.Script) (hf : IW.Fused s) (ps : Nat → List IW.Req)
+theorem iter_short_chunk_at_end (s : IW.Script) (ps : Nat → List IW.Req)
     (hok : ∀ t, ∀ r ∈ ps t, IW.ReqOk r) (σ : List Nat) (hW : (IW.run s σ (IW.init ps)).R < W)
     (t : Nat) (r : IW.Req) (b : Nat) (acc : List Nat)
     (h : ((IW.run s σ (IW.init ps)).th t).pc = .pub r b acc) (hshort : acc.length ≠ r.len) :
     ¬ IW.NoNoneBefore s (IW.run s σ (IW.init ps)).P :=
-  fun hnn => hshort ((IW.inv_reach s hf ps hok σ hW).pubFull t r b acc h hnn)
+  fun hnn => hshort ((IW.inv_reach s ps hok σ hW).pubFull t r b acc h hnn)
 
 -- the hypotheses are satisfiable by a non-trivial configuration
 example : (1 : Nat) ≤ 3 ∧ (5 : Nat) < W := by decide
